@@ -72,3 +72,22 @@ def bad_kind(obs):
 
 def text_hash(text):
     return zlib.crc32(text.encode('utf-8', 'surrogatepass')) & 0xffffffff
+
+
+FSTR_LITERALS = ["'s'", "f'{a}'", "f'{a}{b}'", "f'{a:{w}}'", "f'{a!r:>{w}}x'", "f'''{a}\n{b}'''", "f'''\n{a}\n'''", "f'''{a:\n}'''", "'''\n'''", "f'{a=}'", "rf'{a}\\n'", "u'é'",
+                 "f'é{é}'", "f'{a:{w}.{p}}'"]
+
+
+def fstring_product(n=3):
+    """every sequence of 1..n string literals from FSTR_LITERALS, joined on one line and spread over lines inside parentheses
+    (implicit concatenation; multi-line f-strings; nested format specs) - the shapes where piece ranges and line tracking interact"""
+    import itertools
+    for k in range(1, n + 1):
+        for combo in itertools.product(FSTR_LITERALS, repeat=k):
+            yield 'x = ' + ' '.join(combo) + '\n'
+            if k > 1:
+                yield 'x = (' + '\n    '.join(combo) + ')\n'
+                yield 'f(' + ',\n  k='.join(combo) + ')\r\n'
+            if any('\n' in c for c in combo):
+                yield ('x = (' + '\n    '.join(combo) + ')\n').replace('\n', '\r\n')
+                yield ('x = (' + '\n    '.join(combo) + ')\n').replace('\n', '\r')
